@@ -263,6 +263,7 @@ theorem GvOk_sorted (G : List Spec.Name) (l : List Node) (h : GvOk G l) : GvOk G
 structure FuncRel (G : List Spec.Name) (h : Handler) (f : FuncDef) : Prop where
   name : f.name = h.name
   params : Leaves .paramName h.params f.params
+  locals : Leaves .localVar h.locals f.localVars
   isMethod : f.isMethod = false
   gvars : GvOk G f.globalVars
   stmts : ∃ ns p q, f.stmts = ns ++ [.stmt p (.callFn (.s (S "exit")) q .none true false false .none)] ∧ EmbSs h.body ns
